@@ -466,7 +466,19 @@ var _ = big.NewRat
 // implementation that treats long inputs in blocks, or differently from a size on,
 // is asked at every size.
 func c20EveryLength(c *fw.Ctx, idx int) {
-	n := idx
+	c20Length(c, idx, true)
+	if idx < 48 {
+		// and 48 lengths far beyond the sweep: 10,000 .. 140,000 points (the shapes
+		// that cost n^2 are left out there)
+		c20Length(c, 10000+idx*2777+idx%7, false)
+	}
+	c.Count("sequence_lengths_simplified")
+	if idx%1000 == 0 {
+		c.Distinct(fmt.Sprintf("every-length/%d", idx))
+	}
+}
+
+func c20Length(c *fw.Ctx, n int, quadratic bool) {
 	for _, stride := range []int{2, 3} {
 		mk := func(f func(i int) (float64, float64)) []float64 {
 			flat := make([]float64, n*stride)
@@ -495,10 +507,23 @@ func c20EveryLength(c *fw.Ctx, idx int) {
 			{"straight unit-step line", mk(func(i int) (float64, float64) { return float64(i), 2 }), 0.5, ends},
 			{"straight vertical unit-step line", mk(func(i int) (float64, float64) { return 3, float64(i) }), 0.25, ends},
 			{"one point repeated", mk(func(i int) (float64, float64) { return 4, -4 }), 1, ends},
+			{"one point repeated and then another one repeated", mk(func(i int) (float64, float64) {
+				if i < (n+1)/2 {
+					return 4, -4
+				}
+				return 9, 9
+			}), 1, ends},
+			{"a line that stands still at its end", mk(func(i int) (float64, float64) {
+				if i >= n-5 {
+					return float64(n - 5), 2
+				}
+				return float64(i), 2
+			}), 0.5, ends},
+			{"zig-zag of amplitude 10 under an infinite threshold", mk(func(i int) (float64, float64) { return float64(i), float64(10 * (i % 2)) }), math.Inf(1), ends},
 		}
 		// (keeping every point costs the algorithm n^2/2 distance evaluations: all
 		// lengths up to 2000, beyond that the lengths next to multiples of 64)
-		zz := n <= 2000 || n <= 12000 && (n%64 <= 2 || n%64 == 63)
+		zz := quadratic && (n <= 2000 || n <= 12000 && (n%64 <= 2 || n%64 == 63))
 		if zz {
 			shapes = append(shapes, struct {
 				name string
@@ -534,10 +559,6 @@ func c20EveryLength(c *fw.Ctx, idx int) {
 				return
 			}
 		}
-	}
-	c.Count("sequence_lengths_simplified")
-	if idx%1000 == 0 {
-		c.Distinct(fmt.Sprintf("every-length/%d", idx))
 	}
 }
 
